@@ -11,7 +11,7 @@ import (
 	"verifharness/sim"
 )
 
-// End-to-end halves of the value properties (C10, C11, C12): histories whose
+// End-to-end halves of the value properties (C10, C11, C12, C14): histories whose
 // columns are restricted to the property's types are streamed through the real
 // Streamer — full and partial row images, NULLs, a table mapper that marks
 // columns unsigned or not by ordinal position — and every delivered value is
@@ -21,6 +21,7 @@ func init() {
 		direct := core.Lookup(prop)
 		core.Register(prop, func(c *core.Ctx) {
 			direct(c)
+			heldReport(c)
 			if c.Replay == "" {
 				e2eTypes(c, prop, types)
 			}
@@ -29,6 +30,7 @@ func init() {
 	wrap("C10", []byte{ev.TTiny, ev.TShort, ev.TInt24, ev.TLong, ev.TLongLong, ev.TFloat, ev.TDouble, ev.TYear, ev.TBit, ev.TEnum, ev.TSet, ev.TString})
 	wrap("C11", []byte{ev.TNewDecimal, ev.TNewDecimal, ev.TNewDecimal, ev.TLong})
 	wrap("C12", []byte{ev.TDate, ev.TNewDate, ev.TTime, ev.TDateTime, ev.TTimestamp, ev.TTime2, ev.TDateTime2, ev.TTimestamp2})
+	wrap("C14", []byte{ev.TJSON, ev.TJSON, ev.TLong})
 }
 
 func e2eTypes(c *core.Ctx, prop string, types []byte) {
